@@ -17,3 +17,21 @@ Proof.
   exists s16, 3%nat. eexists. split; [cbn; lia|]. split; [vm_compute; reflexivity|].
   split; [reflexivity|]. vm_compute. discriminate.
 Qed.
+
+(* F-C14-2: Imputer(method="drift") as coded forward/backward-fills the gaps BEFORE the trend is
+   fitted (faithful variant = final_fill, tied by the correspondence run), so the gap receives
+   the previous observation, not the value of the fitted trend line. *)
+Lemma impute_drift_fill_refuted :
+  exists (l : list (option Q)) (t : nat) (v w : Q),
+    nth t l None = None /\
+    nth t (impute_drift_faithful l) None = Some v /\
+    (exists tp, prev_obs l t = Some (tp, v)) /\
+    nth t (impute IDrift l) None = Some w /\
+    (let '(a, b) := ols_line (observed (final_fill l)) in w == a + b * Qn t) /\
+    ~ v == w.
+Proof.
+  exists [Some 0; None; Some 4], 1%nat, 0. eexists.
+  split; [reflexivity|]. split; [reflexivity|]. split; [exists 0%nat; reflexivity|].
+  split; [vm_compute; reflexivity|]. split; [vm_compute; reflexivity|].
+  vm_compute. discriminate.
+Qed.
